@@ -50,6 +50,7 @@ type Case struct {
 	EOFTolMs  int   `json:"eof_tolerance_ms"` // 0 = the reader never reports EOF before the end
 	EOFAt     []int `json:"eof_at_calls"`     // reader calls that report a single EOF instead of data
 	LongPause int   `json:"long_pause_at"`    // reader call that first sleeps longer than the tolerance (0 = none)
+	IdleEach  int   `json:"idle_read_each"`   // every n-th reader call returns (0, nil): an idle line (0 = never)
 }
 
 type scriptReader struct {
@@ -63,6 +64,7 @@ type scriptReader struct {
 	eofAt     map[int]bool
 	longPause int
 	tol       time.Duration
+	idleEach  int
 }
 
 func (r *scriptReader) Read(p []byte) (int, error) {
@@ -79,6 +81,9 @@ func (r *scriptReader) Read(p []byte) (int, error) {
 	}
 	if r.eofAt[r.call] {
 		return 0, io.EOF // transient: the next call supplies data again
+	}
+	if r.idleEach > 0 && r.call%r.idleEach == 0 {
+		return 0, nil // nothing to read just now (allowed by io.Reader, e.g. a serial line with a read time-out)
 	}
 	if r.longPause > 0 && r.call == r.longPause {
 		time.Sleep(r.tol + 10*time.Millisecond)
@@ -179,6 +184,7 @@ func check(c Case, o *stats.Obs) error {
 	}
 	rd := &scriptReader{data: input, chunks: c.Chunks, pauseEach: c.PauseEach, pauseKind: c.PauseKind, eofWith: c.EOFWith}
 	cfg := &jsonconfig.Config{}
+	rd.idleEach = c.IdleEach
 	if c.EOFTolMs > 0 {
 		cfg.TimeoutOnEOFMilliSeconds = uint(c.EOFTolMs)
 		rd.tol = time.Duration(c.EOFTolMs) * time.Millisecond
@@ -270,6 +276,9 @@ func check(c Case, o *stats.Obs) error {
 	if c.EOFTolMs > 0 {
 		o.Class("transient-eof")
 	}
+	if c.IdleEach > 0 {
+		o.Class("idle-reads")
+	}
 	return nil
 }
 
@@ -304,6 +313,9 @@ func gen1(t *rapid.T) Case {
 	c.YieldSeed = rapid.IntRange(0, 1<<30).Draw(t, "yieldSeed")
 	c.YieldMode = rapid.IntRange(0, 2).Draw(t, "yieldMode")
 	c.YieldDens = rapid.SampledFrom([]int{3, 16, 64}).Draw(t, "yieldDensity")
+	if rapid.IntRange(0, 4).Draw(t, "idleReads") == 0 {
+		c.IdleEach = rapid.IntRange(2, 5).Draw(t, "idleEach")
+	}
 	if rapid.IntRange(0, 7).Draw(t, "transientEOF") == 0 {
 		c.EOFTolMs = 30
 		n := rapid.IntRange(1, 3).Draw(t, "nEOF")
